@@ -125,7 +125,11 @@ def do_run(names, all_checks=False, tier='quick', harvest=False):
         if meta.get('obsolete') or meta.get('confirmed') is False:
             print('%-28s %-4s %-14s %s' % (n, meta['property'], 'obsolete', (meta.get('obsolete') or 'not confirmed')[:100]), flush=True)
             continue
-        d = scratch(os.path.join(sd, n, 'patch.diff'))
+        try:
+            d = scratch(os.path.join(sd, n, 'patch.diff'))
+        except SystemExit as e:
+            print('%-28s %-4s %-14s %s' % (n, meta['property'], 'PATCH-FAILS', str(e)[:100]), flush=True)
+            continue
         try:
             res = {}
             group = next((g for g in GROUPS if meta['property'] in g), [meta['property']])
